@@ -1141,9 +1141,27 @@ func init() {
 				k := c.Bound("k", BV64)
 				e.assumeFact(c.ForallPat([]*Term{k}, c.Eq(c.Select(content, k), c.Ite(c.BVCmp("bvult", k, b.Len), c.Select(barr, c.BVBin("bvadd", b.Off, k)), c.Select(dig, c.BVBin("bvsub", k, b.Len)))), c.Select(content, k)))
 			}
-			e.set(e.cur, "mem:bv8", c.Store(mem, ref, content))
 			n := c.BVBin("bvadd", b.Len, size)
-			return &SVal{K: KSlice, Typ: resT, Base: ref, Off: c.BVLit(0, 64), Len: n, Cap: n}
+			if b.Cap.IsLit() && b.Cap.V == 0 {
+				// Sum(nil): always a new array
+				e.set(e.cur, "mem:bv8", c.Store(mem, ref, content))
+				return &SVal{K: KSlice, Typ: resT, Base: ref, Off: c.BVLit(0, 64), Len: n, Cap: n}
+			}
+			// Sum(b) appends: in place when b has room for the digest (the result then shares b's array,
+			// and the bytes after b are overwritten), into a new array otherwise
+			fits := c.BVCmp("bvule", n, b.Cap)
+			saved := e.guard
+			e.guard = c.And(e.guard, fits)
+			e.frameCheckLoc(fr, assignLoc{all: true, ref: b.Base, typ: types.NewArray(types.Typ[types.Uint8], 0)}, ci.Pos(), "hash.Sum into a slice with spare capacity")
+			e.guard = saved
+			barr := c.Select(mem, b.Base)
+			inplace := c.Fresh("sumip", Arr(BV64, BV8))
+			k := c.Bound("k", BV64)
+			lo := c.BVBin("bvadd", b.Off, b.Len)
+			e.assumeFact(c.ForallPat([]*Term{k}, c.Eq(c.Select(inplace, k),
+				c.Ite(c.And(c.BVCmp("bvule", lo, k), c.BVCmp("bvult", k, c.BVBin("bvadd", lo, size))), c.Select(dig, c.BVBin("bvsub", k, lo)), c.Select(barr, k))), c.Select(inplace, k)))
+			e.set(e.cur, "mem:bv8", c.Ite(fits, c.Store(mem, b.Base, inplace), c.Store(mem, ref, content)))
+			return &SVal{K: KSlice, Typ: resT, Base: c.Ite(fits, b.Base, ref), Off: c.Ite(fits, b.Off, c.BVLit(0, 64)), Len: n, Cap: c.Ite(fits, b.Cap, n)}
 		},
 		"time.Unix": func(e *Encoder, fr *frame, args []*SVal, ci ssa.CallInstruction, resT types.Type) *SVal {
 			// the result is an opaque time.Time denoting sec seconds + nsec nanoseconds after the epoch
